@@ -170,7 +170,10 @@ def LEMMAS():
              [step, z3.ForAll([p], z3.Implies(par(p, y), dep(p)))], dep(y))]
 
 
-UNITS = [LinkedRowLocality(), Totals(), IndividualSample({"C03"})]
+# sampling-based personalisation: each individual's result is a function of its OWN kept draws and losses only (contracts of C17:
+# mean of its draws; all variables of its own lowest-loss draw) -- re-checked here, a cohort-wide selection fails them
+from contracts.c17 import MeanEstimator, ModeEstimator
+UNITS = [LinkedRowLocality(), Totals(), IndividualSample({"C03"}), MeanEstimator(), ModeEstimator()]
 CALLEES = [ShuffledIndices()]
 engine_setup = T.engine_setup
 ASSUMPTIONS = [
